@@ -11,35 +11,42 @@
 (* with unregister_instance; dispose leaves it registered.  The handle of  *)
 (* an instance is a function of its key only (HandleOf is evaluated by     *)
 (* the harness: the big-endian key padded to 16 bytes).                    *)
+(*                                                                         *)
+(* RESOURCE_LIMITS.max_instances (MaxInst, 0 = unlimited): the writer      *)
+(* keeps an entry for every key it has ever registered or written (known); *)
+(* an instance it already knows never needs a new entry, a new one is      *)
+(* refused with OutOfResources when the writer holds MaxInst entries.      *)
+(* dust-dds keeps the entry of an unregistered instance, so it still       *)
+(* counts (the statements do not say; the model follows the code).         *)
 (***************************************************************************)
 EXTENDS Integers, Sequences, FiniteSets, TLC, Json
 
-CONSTANTS Keys, MaxOps
+CONSTANTS Keys, MaxOps, MaxInst
 
-VARIABLES created, keyed, enabled, reg, nOps, lastOp
-vars == <<created, keyed, enabled, reg, nOps, lastOp>>
-view == <<created, keyed, enabled, reg, nOps>>
+VARIABLES created, keyed, enabled, reg, known, nOps, lastOp
+vars == <<created, keyed, enabled, reg, known, nOps, lastOp>>
+view == <<created, keyed, enabled, reg, known, nOps>>
 
-Init == created = FALSE /\ keyed = FALSE /\ enabled = FALSE /\ reg = {} /\ nOps = 0 /\ lastOp = [op |-> "Init"]
+Init == created = FALSE /\ keyed = FALSE /\ enabled = FALSE /\ reg = {} /\ known = {} /\ nOps = 0 /\ lastOp = [op |-> "Init"]
 
 \* projection compared with the real writer: lookup_instance of every key
 Proj == [created |-> created, keyed |-> keyed, enabled |-> enabled,
          lookup |-> IF ~created \/ ~keyed THEN [k \in Keys |-> "n/a"]
                     ELSE IF ~enabled THEN [k \in Keys |-> "NotEnabled"]
                     ELSE [k \in Keys |-> IF k \in reg THEN "Some" ELSE "None"],
-         aux |-> <<reg, nOps>>]
+         aux |-> <<reg, known, nOps>>]
 
 Op(name, args, res, tag) == [op |-> name, a |-> args, expect |-> res, tag |-> tag]
 Tick == nOps < MaxOps /\ nOps' = nOps + 1
 
 Create(kd, en) ==
     /\ ~created /\ Tick
-    /\ created' = TRUE /\ keyed' = kd /\ enabled' = en /\ reg' = {}
+    /\ created' = TRUE /\ keyed' = kd /\ enabled' = en /\ reg' = {} /\ known' = {}
     /\ lastOp' = Op("Create", [keyed |-> kd, enabled |-> en], [res |-> "Ok"], "create")
 
 Enable ==
     /\ created /\ Tick
-    /\ enabled' = TRUE /\ UNCHANGED <<created, keyed, reg>>
+    /\ enabled' = TRUE /\ UNCHANGED <<created, keyed, reg, known>>
     /\ lastOp' = Op("Enable", [x |-> 0], [res |-> "Ok"], IF enabled THEN "enable:again" ELSE "enable")
 
 \* common guards of the instance operations
@@ -48,23 +55,28 @@ Guard(name, k, tagp) ==
     ELSE IF ~keyed THEN [hit |-> TRUE, op |-> Op(name, [k |-> k], [res |-> "IllegalOperation"], tagp \o ":keyless")]
     ELSE [hit |-> FALSE]
 
+Full(k) == MaxInst > 0 /\ k \notin known /\ Cardinality(known) >= MaxInst
+
 Register(k) ==
     /\ created /\ Tick /\ UNCHANGED <<created, keyed, enabled>>
     /\ LET g == Guard("Register", k, "register") IN
-       IF g.hit THEN reg' = reg /\ lastOp' = g.op
-       ELSE /\ reg' = reg \cup {k}
+       IF g.hit THEN reg' = reg /\ known' = known /\ lastOp' = g.op
+       ELSE IF Full(k) THEN reg' = reg /\ known' = known /\ lastOp' = Op("Register", [k |-> k], [res |-> "OutOfResources"], "register:out-of-resources")
+       ELSE /\ reg' = reg \cup {k} /\ known' = known \cup {k}
             /\ lastOp' = Op("Register", [k |-> k], [res |-> "Ok", handle |-> k],
-                            IF k \in reg THEN "register:idempotent" ELSE "register:new")
+                            IF k \in reg THEN "register:idempotent"
+                            ELSE IF MaxInst > 0 /\ Cardinality(known) >= MaxInst THEN "register:known-instance-at-the-limit"
+                            ELSE "register:new")
 
 Unregister(k) ==
-    /\ created /\ Tick /\ UNCHANGED <<created, keyed, enabled>>
+    /\ created /\ Tick /\ UNCHANGED <<created, keyed, enabled, known>>
     /\ LET g == Guard("Unregister", k, "unregister") IN
        IF g.hit THEN reg' = reg /\ lastOp' = g.op
        ELSE IF k \notin reg THEN reg' = reg /\ lastOp' = Op("Unregister", [k |-> k], [res |-> "BadParameter"], "unregister:unknown")
        ELSE reg' = reg \ {k} /\ lastOp' = Op("Unregister", [k |-> k], [res |-> "Ok"], "unregister:registered")
 
 Dispose(k) ==
-    /\ created /\ Tick /\ UNCHANGED <<created, keyed, enabled>>
+    /\ created /\ Tick /\ UNCHANGED <<created, keyed, enabled, known>>
     /\ LET g == Guard("Dispose", k, "dispose") IN
        IF g.hit THEN reg' = reg /\ lastOp' = g.op
        ELSE IF k \notin reg THEN reg' = reg /\ lastOp' = Op("Dispose", [k |-> k], [res |-> "BadParameter"], "dispose:unknown")
@@ -72,13 +84,15 @@ Dispose(k) ==
 
 Write(k) ==
     /\ created /\ Tick /\ UNCHANGED <<created, keyed, enabled>>
-    /\ IF ~enabled THEN reg' = reg /\ lastOp' = Op("Write", [k |-> k], [res |-> "NotEnabled"], "write:not-enabled")
-       ELSE IF ~keyed THEN reg' = reg /\ lastOp' = Op("Write", [k |-> k], [res |-> "Ok"], "write:keyless")
-       ELSE reg' = reg \cup {k} /\ lastOp' = Op("Write", [k |-> k], [res |-> "Ok"],
-                                               IF k \in reg THEN "write:registered" ELSE "write:implicit-registration")
+    /\ IF ~enabled THEN reg' = reg /\ known' = known /\ lastOp' = Op("Write", [k |-> k], [res |-> "NotEnabled"], "write:not-enabled")
+       ELSE IF ~keyed THEN reg' = reg /\ known' = known /\ lastOp' = Op("Write", [k |-> k], [res |-> "Ok"], "write:keyless")
+       ELSE IF Full(k) THEN reg' = reg /\ known' = known /\ lastOp' = Op("Write", [k |-> k], [res |-> "OutOfResources"], "write:out-of-resources")
+       ELSE reg' = reg \cup {k} /\ known' = known \cup {k}
+            /\ lastOp' = Op("Write", [k |-> k], [res |-> "Ok"],
+                            IF k \in reg THEN "write:registered" ELSE "write:implicit-registration")
 
 Lookup(k) ==
-    /\ created /\ keyed /\ Tick /\ UNCHANGED <<created, keyed, enabled, reg>>
+    /\ created /\ keyed /\ Tick /\ UNCHANGED <<created, keyed, enabled, reg, known>>
     /\ IF ~enabled THEN lastOp' = Op("Lookup", [k |-> k], [res |-> "NotEnabled"], "lookup:not-enabled")
        ELSE IF k \in reg THEN lastOp' = Op("Lookup", [k |-> k], [res |-> "Ok", handle |-> k], "lookup:registered")
        ELSE lastOp' = Op("Lookup", [k |-> k], [res |-> "Ok", handle |-> 0], "lookup:unknown")
@@ -93,5 +107,7 @@ Spec == Init /\ [][Next]_vars
 
 \* C28 on the model: what lookup answers is exactly the registered set, nothing is registered
 \* on a keyless or not yet enabled writer
-RegConsistent == (~keyed \/ ~enabled) => reg = {}
+RegConsistent == /\ ((~keyed \/ ~enabled) => reg = {})
+                 /\ reg \subseteq known
+                 /\ (MaxInst > 0 => Cardinality(known) <= MaxInst)
 =============================================================================
